@@ -11,6 +11,7 @@ import (
 	"os"
 	"strconv"
 	"strings"
+	"time"
 )
 
 // Payload parses "x<hex>" or "g<len>.<a>".
@@ -63,22 +64,44 @@ func Hex(b []byte) string { return hex.EncodeToString(b) }
 
 // Loop reads case lines from stdin and prints one result line per case.
 // A panic inside f is reported as "!panic <msg>" so that it is a comparable observable.
+// A case that does not return within the watchdog limit (VERIF_CASE_TIMEOUT seconds, default 300)
+// is reported as "!hang": its goroutine is abandoned and the loop goes on, so a deadlock in the code
+// under test is an observable of that case instead of a stuck driver. After a first hang the limit
+// drops to 20 s, and after three hangs the remaining cases are answered "!hang-skipped".
 func Loop(f func(args []string) string) {
 	sc := bufio.NewScanner(os.Stdin)
 	sc.Buffer(make([]byte, 1<<20), 1<<28)
 	w := bufio.NewWriterSize(os.Stdout, 1<<20)
 	defer w.Flush()
+	limit := 300 * time.Second
+	if v, err := strconv.Atoi(os.Getenv("VERIF_CASE_TIMEOUT")); err == nil && v > 0 {
+		limit = time.Duration(v) * time.Second
+	}
+	hangs := 0
 	for sc.Scan() {
 		line := sc.Text()
 		args := strings.Split(line, " ")
-		res := func() (res string) {
+		if hangs >= 3 {
+			w.WriteString("!hang-skipped\n")
+			continue
+		}
+		ch := make(chan string, 1)
+		go func() {
 			defer func() {
 				if r := recover(); r != nil {
-					res = "!panic " + strings.ReplaceAll(fmt.Sprint(r), "\n", " ")
+					ch <- "!panic " + strings.ReplaceAll(fmt.Sprint(r), "\n", " ")
 				}
 			}()
-			return f(args[1:])
+			ch <- f(args[1:])
 		}()
+		var res string
+		select {
+		case res = <-ch:
+		case <-time.After(limit):
+			res = "!hang"
+			hangs++
+			limit = 20 * time.Second
+		}
 		w.WriteString(res)
 		w.WriteByte('\n')
 	}
